@@ -67,6 +67,7 @@ func runC12(c *core.Ctx) {
 			continue // retention is claimed between processes that know the types
 		}
 		c.Cover("stage", st.name)
+		for pass := 0; pass < 2; pass++ { // reporting must not consume what it reports: observe twice
 		var all, event, extras string
 		if p := core.Try(func() {
 			o := obs.PIIFree(st.err)
@@ -74,7 +75,7 @@ func runC12(c *core.Ctx) {
 			all = event + "\x01" + extras + "\x01" + o["allsafedetails"]
 		}); p != nil {
 			c.Violate("panic/report", "report / safe details panicked", fmt.Sprintf("%s\nstage %s: %v", t, st.name, p))
-			continue
+			break
 		}
 		for _, tk := range safe {
 			if tk.InMark {
@@ -115,6 +116,7 @@ func runC12(c *core.Ctx) {
 						fmt.Sprintf("%s\nstage %s: %s", t, st.name, l.StackFn))
 				}
 			}
+		}
 		}
 	}
 	c.Sample(sample(t, map[string]interface{}{"safe_tokens": len(safe), "layers": len(layers)}))
